@@ -417,6 +417,11 @@ func (lifeCore) handle(ws []string) string {
 			order = ws[3]
 		}
 		return lifeRun(ws[1], ws[2], order)
+	case "takeover":
+		if len(ws) != 2 {
+			return "bad-op"
+		}
+		return lifeTakeover(ws[1])
 	}
 	return "bad-op"
 }
